@@ -47,9 +47,14 @@ def style_graph(rng):
     def auto(el, nm):
         doc.automaticstyles.addElement(el); names.append(nm); return nm
     n = rng.randint(3, 9)
+    used_keys = set()
     for i in range(n):
         k = rng.choice(['para', 'text', 'list', 'num', 'pl', 'cell', 'graphic'])
         nm = '%s%d' % (k[0].upper(), i)
+        if names and rng.random() < 0.25:      # the same name for a style of ANOTHER kind (L1 the list style, L1 the paragraph style)
+            cand = rng.choice(names)
+            if (k, cand) not in used_keys: nm = cand
+        used_keys.add((k, nm))
         if k == 'para': auto(style.Style(name=nm, family='paragraph'), nm)
         elif k == 'text': auto(style.Style(name=nm, family='text'), nm)
         elif k == 'cell': auto(style.Style(name=nm, family='table-cell'), nm)
@@ -66,6 +71,8 @@ def add_reference(rng, doc, names, where, attr, target):
     from odf.element import Element
     e = Element(qname=(X.TEXTNS, 'span'), check_grammar=False)
     e.setAttrNS(attr[0], attr[1], target)
+    if isinstance(target, str) and getattr(rng, '_second', None):
+        a2, t2 = rng._second; e.setAttrNS(a2[0], a2[1], t2)      # a second style reference on the same element
     if where == 'body':
         p = text.P(); p.addElement(e, check_grammar=False); doc.text.addElement(p)
     elif where == 'master':
